@@ -26,7 +26,9 @@ RULE += (
     "outer context's pause() failing in __exit__). Bodies that keep executing inside generator.close() of a "
     "task that already has its outcome are counted, not judged. Another structured family lets a task SURVIVE "
     "the guard (it catches the RuntimeError of its nested synchronous call) and go on with further synchronous "
-    "calls, contexts and batched work, with the active-task probes applied throughout."
+    "calls, contexts and batched work, with the active-task probes applied throughout. A third of the "
+    "computations started with .value() run a task that was BUILT before the thread's scheduler was replaced "
+    "by scheduler.reset()."
 )
 ASSUMPTIONS = [
     "BaseException failures are outside the statement ('any Exception') and are not injected here",
